@@ -202,6 +202,15 @@ func c14direct(c *hx.Ctx, user, secret string, cred Credential, offered []string
 	err := authSASL(sock, xml.NewDecoder(sock), f, user, cred)
 	c.Step(1)
 	in := fmt.Sprintf("user=%q secret=%q cred=%v offered=%v reply=%s", user, secret, cred.mechanisms, offered, reply)
+	if len(user)+len(secret) > 400 {
+		short := func(s string) string {
+			if len(s) > 40 {
+				return fmt.Sprintf("%q... (%d bytes)", s[:40], len(s))
+			}
+			return fmt.Sprintf("%q", s)
+		}
+		in = fmt.Sprintf("user=%s secret=%s cred=%v offered=%v reply=%s", short(user), short(secret), cred.mechanisms, offered, reply)
+	}
 	c.Eval(in + "=>" + sock.out.String() + fmt.Sprint(err != nil))
 	if k, d := c14checkAuth(sock.out.String(), offered, cred, user, secret); k != "" {
 		c.Fail("C14|"+k, in, "%s: %s", in, d)
@@ -277,6 +286,42 @@ func TestVerifC14(t *testing.T) {
 				}
 			}
 			c.Sample(map[string]string{"user": `<&>"'`, "secret": "a\x00b", "cred": cr.name})
+		}})
+		scs = append(scs, hx.Scenario{Name: "direct/lengths/" + cr.name, Run: func(c *hx.Ctx) {
+			// every length of local part and secret: all small ones (every base64 padding class, every short buffer),
+			// and the lengths around every power of two up to 128 KiB (a token is easily several kB): a fixed-size
+			// buffer, a length kept in a narrow integer, a chunked encoder show at one of these. The text varies along
+			// its length, so that a cut, a shift or a repetition changes the payload.
+			c14currentKind = cr.name
+			text := func(n int) string {
+				b := make([]byte, n)
+				for i := range b {
+					b[i] = "abcdefghijklmnopqrstuvwxyzABCDEFGHIJKLMNOPQRSTUVWXYZ0123456789-._~+/="[(i*7+i/67)%69]
+				}
+				return string(b)
+			}
+			var lens []int
+			for n := 0; n <= 70; n++ {
+				lens = append(lens, n)
+			}
+			maxPow := 14
+			if hx.Thorough() {
+				maxPow = 17
+			}
+			for k := 7; k <= maxPow; k++ {
+				for d := -3; d <= 2; d++ {
+					lens = append(lens, 1<<k+d)
+				}
+			}
+			for _, ul := range []int{0, 1, 4, 31, 1021, 1023} {
+				for _, sl := range lens {
+					c14direct(c, text(ul), text(sl), cr.mk(text(sl)), []string{"X-OAUTH2", "PLAIN"}, "success")
+				}
+			}
+			for _, ul := range lens {
+				c14direct(c, text(ul), "s3cr3t", cr.mk("s3cr3t"), []string{"X-OAUTH2", "PLAIN"}, "success")
+			}
+			c.Sample(map[string]any{"user_len": 1021, "secret_len": 1025, "cred": cr.name})
 		}})
 		scs = append(scs, hx.Scenario{Name: "direct/mechanisms/" + cr.name, Run: func(c *hx.Ctx) {
 			c14currentKind = cr.name
